@@ -91,6 +91,9 @@ func judgeC01(hst Hist) *h.Verdict {
 				if !online {
 					continue
 				}
+				if used*st.cost[u.RG] >= 1<<31 || int64(u.Req)*st.cost[u.RG] >= 1<<31 {
+					v.Label("price>=2^31")
+				}
 				k := [2]int{op.S % len(w.subs), int(u.RG)}
 				if sessPerRG[k] == nil {
 					sessPerRG[k] = map[string]bool{}
@@ -145,7 +148,7 @@ func judgeC01(hst Hist) *h.Verdict {
 }
 
 func genC01(t *rapid.T) Hist {
-	return genHist(t, genOpts{maxSubs: 3, maxSess: 3, minOps: 4, maxOps: h.Scale(24, 40), recharge: true, offline: true})
+	return genHist(t, genOpts{maxSubs: 3, maxSess: 3, minOps: 4, maxOps: h.Scale(24, 40), recharge: true, offline: true, bigCost: true})
 }
 
 func TestC01Conservation(t *testing.T) { h.Run(t, "C01", "histories", genC01, judgeC01) }
